@@ -414,7 +414,7 @@ impl Check for C20 {
     fn meta(&self) -> Meta {
         Meta {
             level: "exploration",
-            rule: "workloads of 1-40 field sections of 1-5 fields over an alphabet of 8 names x 8 values (forcing duplicates, name references, static hits, evictions), table capacity over {0, 33, 36, 40 (one entry), 64, 100, 128, 256, 512, 1024, 4096}, blocked-stream limit over {0,1,2,5,100}, occasional capacity changes and cancellations of blocked streams; delivery schedules of the three channels drawn (encoder-stream bytes in arbitrary chunks and arbitrarily late, sections in any order, decoder-stream bytes late and chunked; one run in five is prompt and in order); non-trivial = at least one section referenced the dynamic table; distinct = distinct schedule signatures",
+            rule: "workloads of 1-40 field sections of 1-5 fields over an alphabet of 8 names x 8 values (forcing duplicates, name references, static hits, evictions), table capacity over {0, 33, 36, 40 (one entry), 64, 100, 128, 256, 512, 1024, 4096}, blocked-stream limit over {0,1,2,5,100}, one section in four the second (trailers) section of the stream that carried the previous one - delivered, decoded and acknowledged in stream order -, occasional capacity changes and cancellations of blocked streams (which abandon every undecoded section of the stream); delivery schedules of the three channels drawn (encoder-stream bytes in arbitrary chunks and arbitrarily late, sections in any order, decoder-stream bytes late and chunked; one run in five is prompt and in order); non-trivial = at least one section referenced the dynamic table; distinct = distinct schedule signatures",
             real: &["h3::qpack::{Encoder, Decoder, DynamicTable} (stateful), vas, stream instruction codecs, block representations (through the verif-hooks re-export)"],
             stub: &["the three channels between encoder and decoder (owned by the simulator)", "the layer above the decoder that emits Section Acknowledgment / Stream Cancellation"],
             assumptions: &["this code is not reachable from h3's connection code today (stateless codec is used); the reference (refs::qpack_dyn) takes MaxEntries from the initial capacity, which stands for SETTINGS_QPACK_MAX_TABLE_CAPACITY", "the blocked-stream limit is judged with the Known Received Count reconstructed by the reference from the decoder stream as delivered to the encoder"],
